@@ -38,6 +38,17 @@ pub struct DevKnobs {
     /// Number of downstream ports (0..=3) this device offers
     pub down_ports: u8,
     pub complete_access: bool,
+    /// (PDO index, factor): the device is configured for oversampling, its sync managers are
+    /// that much longer
+    #[serde(default)]
+    pub oversampling: Vec<(u16, u16)>,
+    /// Process data sync managers of one direction are not physically adjacent (each sits in its
+    /// own 3-buffer area)
+    #[serde(default)]
+    pub noncontig: bool,
+    /// The SII names no order string: the MainDevice makes a name up from the identity
+    #[serde(default)]
+    pub unnamed: bool,
 }
 
 pub fn bits_to_bytes(pdos: &[Vec<u8>]) -> usize {
@@ -53,6 +64,31 @@ impl DevKnobs {
 
     pub fn in_len(&self) -> usize {
         self.in_sms.iter().map(|sm| bits_to_bytes(sm)).sum()
+    }
+
+    /// Byte length of a sync manager holding `pdos` (first PDO index `base`) with oversampling.
+    pub fn sm_len(&self, pdos: &[Vec<u8>], base: u16) -> usize {
+        let bits: usize = pdos
+            .iter()
+            .enumerate()
+            .map(|(pi, entries)| {
+                let idx = base + pi as u16;
+                let f = self.oversampling.iter().find(|(p, _)| *p == idx).map(|(_, f)| usize::from(*f)).unwrap_or(1);
+
+                entries.iter().map(|b| usize::from(*b)).sum::<usize>() * f
+            })
+            .sum();
+
+        bits.div_ceil(8)
+    }
+
+    /// Real process data lengths (with oversampling)
+    pub fn out_len_real(&self) -> usize {
+        self.out_sms.iter().enumerate().map(|(k, sm)| self.sm_len(sm, 0x1600 + (k * 16) as u16)).sum()
+    }
+
+    pub fn in_len_real(&self) -> usize {
+        self.in_sms.iter().enumerate().map(|(k, sm)| self.sm_len(sm, 0x1a00 + (k * 16) as u16)).sum()
     }
 
     /// Build the device. `parent`, and which ports are open, come from the topology.
@@ -77,9 +113,10 @@ impl DevKnobs {
         for (k, pdos) in self.out_sms.iter().enumerate() {
             let smi = sms.len();
             let len = bits_to_bytes(pdos) as u16;
+            let real = self.sm_len(pdos, 0x1600 + (k * 16) as u16) as u16;
 
             sms.push(SmDesc { start: next, len, mode: 0, dir: 1, ctl_flags: 6, status: 0, enable: 1, usage: 3 });
-            next += len;
+            next += if self.noncontig { (real * 3).next_multiple_of(8) + 8 } else { real };
 
             let mut assign: Vec<Vec<u8>> = vec![vec![pdos.len() as u8]];
 
@@ -116,9 +153,10 @@ impl DevKnobs {
         for (k, pdos) in self.in_sms.iter().enumerate() {
             let smi = sms.len();
             let len = bits_to_bytes(pdos) as u16;
+            let real = self.sm_len(pdos, 0x1a00 + (k * 16) as u16) as u16;
 
             sms.push(SmDesc { start: next, len, mode: 0, dir: 0, ctl_flags: 2, status: 0, enable: 1, usage: 4 });
-            next += len;
+            next += if self.noncontig { (real * 3).next_multiple_of(8) + 8 } else { real };
 
             let mut assign: Vec<Vec<u8>> = vec![vec![pdos.len() as u8]];
 
@@ -159,11 +197,12 @@ impl DevKnobs {
         // FMMU usage: outputs, inputs, mailbox status
         let mut fmmus = Vec::new();
 
-        if !self.out_sms.is_empty() {
+        // adjacent sync managers share one FMMU per direction; otherwise there is one per SM
+        for _ in 0..if self.noncontig { self.out_sms.len() } else { self.out_sms.len().min(1) } {
             fmmus.push(1u8);
         }
 
-        if !self.in_sms.is_empty() {
+        for _ in 0..if self.noncontig { self.in_sms.len() } else { self.in_sms.len().min(1) } {
             fmmus.push(2);
         }
 
@@ -182,7 +221,7 @@ impl DevKnobs {
         categories.push(Category::General(GeneralDesc {
             group_idx: 3,
             img_idx: 0,
-            order_idx: 1,
+            order_idx: if self.unnamed { 0 } else { 1 },
             name_idx: 2,
             coe_details: if self.coe { 0x01 | 0x04 | if self.complete_access { 0x20 } else { 0 } } else { 0 },
             foe: false,
@@ -251,6 +290,7 @@ impl DevKnobs {
             stale_station_addr: self.stale_addr,
             esm,
             strict: self.strict,
+            oversampling: self.oversampling.clone(),
             od,
             upload,
             input_seed: self.input_seed,
@@ -333,6 +373,9 @@ pub fn knobs(r: KnobRanges) -> impl Strategy<Value = DevKnobs> {
             link_delay,
             down_ports: 1,
             complete_access,
+            oversampling: vec![],
+            noncontig: false,
+            unnamed: false,
         })
 }
 
